@@ -453,7 +453,7 @@ def main(tier):
     res1, behs1 = run_tlc(2 if quick else 3, 2, export=True, tag="x")
     print("TLC PyAssist exhaustive:", res1.summary())
     # simulated longer programs
-    res2, behs2 = run_tlc(9, 3, simulate={"num": 20 if quick else 150}, depth=10, export=True,
+    res2, behs2 = run_tlc(9, 3, simulate={"num": 20 if quick else 80}, depth=10, export=True,
                           seed=common.SEED + 1, tag="s")
     print("TLC PyAssist simulation:", res2.summary())
     for r in (res1, res2):
@@ -484,7 +484,7 @@ def main(tier):
     if quick:
         chosen = nested[:150] + flat[:30] + big[:220]
     else:
-        chosen = nested[:2000] + flat[:300] + big[:2500]
+        chosen = nested[:1600] + flat[:200] + big[:2000]
     items = [(b, k) for k, b in enumerate(chosen)]
     totals = {}
     replayed = 0
